@@ -46,6 +46,34 @@ Theorem C17_drain_empties_the_loop : forall l, queue (drained_run l) = [].
 Proof. exact drained_queue. Qed.
 Print Assumptions C17_drain_empties_the_loop.
 
+(* T1 part 3: from any point at which the socket of c works (not failing, not closed) and
+   for as long as c has no further fault, nothing sent to c - nor anything still queued for
+   it - is lost; a connected c gets every event emitted from that point on.  In particular
+   a client whose write failed transiently (SocketFails ... SocketRecovers, still connected)
+   receives every event emitted after the recovery. *)
+Theorem C17_working_socket_nothing_lost : forall l1 l2 c,
+  memz c (failing (run l1)) = false -> memz c (closed (run l1)) = false ->
+  no_faults c l2 = true ->
+  exists new,
+    recv c (run (l1 ++ l2)) ++ pending c (run (l1 ++ l2))
+      = (recv c (run l1) ++ pending c (run l1)) ++ new /\
+    sent c (l1 ++ l2) = sent c l1 ++ new /\
+    (memz c (clients (run l1)) = true -> new = emitted l2).
+Proof. exact working_nothing_lost. Qed.
+Print Assumptions C17_working_socket_nothing_lost.
+
+Theorem C17_complete_after_recovery : forall l1 l2 c,
+  memz c (clients (run l1)) = true -> no_faults c l2 = true ->
+  queue (run (l1 ++ SocketRecovers c :: l2)) = [] ->
+  exists before, recv c (run (l1 ++ SocketRecovers c :: l2)) = before ++ emitted l2.
+Proof. exact recovered_complete. Qed.
+Print Assumptions C17_complete_after_recovery.
+
+Theorem C17_monitor_recovered_predicate_holds : forall l c,
+  queue (run l) = [] -> t1_recovered_ok c l (recv c (run l)) = true.
+Proof. exact t1_recovered_ok_holds. Qed.
+Print Assumptions C17_monitor_recovered_predicate_holds.
+
 (* T2 isolation: erasing the other clients' Disconnect / SocketFails / SocketRecovers steps
    does not change what c receives *)
 Theorem C17_isolation : forall l c,
